@@ -131,7 +131,10 @@ def worker(job):
             if isinstance(other, cls) and deep(other) != do:
                 state["bad"].append(("operand-mutated:" + opname, "right operand changed by %s" % opname))
             wantv = f(es, eo if eo is not None else other) % p
-            if not isinstance(result, cls) or ev(result) != wantv:
+            if isinstance(result, cls) and deep(result) != deep(result):
+                # reading a result must not use it up (a one-shot iterator as term container evaluates correctly exactly once)
+                state["bad"].append(("result-changes-when-read:" + opname, "the result of %s has different terms the second time it is read" % opname))
+            elif not isinstance(result, cls) or ev(result) != wantv:
                 state["bad"].append(("evaluation-differs:" + opname, "%s: result evaluates to %s, operands give %s" % (
                     opname, ev(result) if isinstance(result, cls) else type(result).__name__, wantv)))
             return True
@@ -142,7 +145,9 @@ def worker(job):
         ds, es = OLD.ops
         if deep(self) != ds:
             state["bad"].append(("operand-mutated:neg", "operand changed by negation"))
-        if not isinstance(result, cls) or ev(result) != (-es) % p:
+        if isinstance(result, cls) and deep(result) != deep(result):
+            state["bad"].append(("result-changes-when-read:neg", "the result of negation has different terms the second time it is read"))
+        elif not isinstance(result, cls) or ev(result) != (-es) % p:
             state["bad"].append(("evaluation-differs:neg", "negation evaluates to %s, expected %s" % (ev(result), (-es) % p)))
         return True
 
@@ -164,19 +169,30 @@ def worker(job):
         op = rnd.choice(["add", "sub", "mul", "neg", "add", "mul"])
         a = rnd.choice(pool)
         before = len(state["bad"])
-        if op == "add":
-            b = rnd.choice(pool + [a, shared_one])
-            r, sc = a + b, "lc"
-        elif op == "sub":
-            b = rnd.choice(pool + [a, shared_one])
-            r, sc = a - b, "lc"
-        elif op == "mul":
-            sc, k = rnd.choice(scalars)
-            if sc == "small":
-                k = rnd.randint(2, 99)
-            r = a * k
-        else:
-            r, sc = -a, "-"
+        sc = "?"
+        try:
+            if op == "add":
+                b = rnd.choice(pool + [a, shared_one])
+                r, sc = a + b, "lc"
+            elif op == "sub":
+                b = rnd.choice(pool + [a, shared_one])
+                r, sc = a - b, "lc"
+            elif op == "mul":
+                sc, k = rnd.choice(scalars)
+                if sc == "small":
+                    k = rnd.randint(2, 99)
+                r = a * k
+            else:
+                r, sc = -a, "-"
+            size(r)
+        except AlgebraBroken:
+            raise
+        except Exception as e:  # noqa - an operator of the backend's own algebra failed on operands it produced itself
+            R.case(cell="%s|%s|%s" % (be, op, sc), key=(be, op, n))
+            R.violation("algebra-operation-raised:" + op, "%s on linear combinations produced by the backend raised %s: %s" % (op, type(e).__name__, str(e)[:120]), backend=be, op=op, scalar=sc)
+            if len(R.violations if hasattr(R, "violations") else []) > 50:
+                break
+            continue
         R.case(cell="%s|%s|%s" % (be, op, sc), key=(be, op, deep(a)[:6], n))
         if len(state["bad"]) > before:
             mech, what = state["bad"][before]
